@@ -7,13 +7,13 @@ PROP = {
     "modules": ["Gnmi.Props.C05", "Gnmi.Props.C05Reach"],
     "theorems": ["Gnmi.C05." + t for t in [
         "once_static_exact", "walkItems_mem", "once_origin_conflict", "walk_fold", "insertHandle_walk", "pump_drains",
-        "once_static_exact_reachable", "walk_targets_reachable", "reachable_owner"]] + ["Gnmi.Feed.step_names", "Gnmi.Feed.get_of_mem"],
+        "once_static_exact_reachable", "walk_targets_reachable", "walk_functional_reachable", "walk_item_source", "reachable_owner"]] + ["Gnmi.Feed.step_names", "Gnmi.Feed.get_of_mem"],
     "components": [su_component(""), su_component("c08", 150, 1500)],
     "monitor": "spec", "level": "proof",
     "trusted_base": SUB_TB, "assumptions": SUB_ASSUMPTIONS + [
-        "once_static_exact assumes that a stored notification carries its target's name in the prefix; once_static_exact_reachable discharges it "
-        "for every cache reachable through the API (stored-owner invariant of the feed simulation + unique target names); a leaf has one value in "
-        "an unchanging cache (Functional)",
+        "once_static_exact assumes that a stored notification carries its target's name in the prefix and that a leaf has one value (Functional); "
+        "once_static_exact_reachable discharges both for every cache reachable through the API (stored-owner invariant of the feed simulation, "
+        "unique keys, unique target names)",
     ],
     "manifest": {
         "level_text": "Lean 4 theorems over the code-shaped sequential model of subscribe.Server: once_static_exact (for every cache content, ACL and "
